@@ -319,6 +319,30 @@ func (r *rewriter) knobs(f *ast.File) {
 	})
 }
 
+// pools applies G7: the type sync.Pool becomes verifhook.Pool (a deterministic LIFO free list).
+func (r *rewriter) pools(f *ast.File) {
+	n := 0
+	ast.Inspect(f, func(node ast.Node) bool {
+		if sel, ok := node.(*ast.SelectorExpr); ok && sel.Sel.Name == "Pool" {
+			if id, ok := sel.X.(*ast.Ident); ok && id.Name == "sync" {
+				sel.X = ast.NewIdent("verifhook")
+				n++
+			}
+		}
+		return true
+	})
+	if n == 0 {
+		return
+	}
+	r.changed = true
+	r.report["pool"] += n
+	// keep the sync import used whatever else the file does with it
+	f.Decls = append(f.Decls, &ast.GenDecl{Tok: token.VAR, Specs: []ast.Spec{&ast.ValueSpec{
+		Names: []*ast.Ident{ast.NewIdent("_")},
+		Type:  &ast.SelectorExpr{X: ast.NewIdent("sync"), Sel: ast.NewIdent("Mutex")},
+	}}})
+}
+
 func addImport(f *ast.File) {
 	for _, im := range f.Imports {
 		if strings.Trim(im.Path.Value, `"`) == hookImport {
@@ -382,6 +406,7 @@ func main() {
 			if pkg == "tar" || pkg == "cache" {
 				r.knobs(f)
 			}
+			r.pools(f)
 			if !r.changed {
 				continue
 			}
